@@ -112,8 +112,17 @@ def r1_tempfiles(ctx):
              and isinstance(n.value, ast.Call)
              and text(n.value.func) == "FileReadBackwards"
              and isinstance(n.targets[0], ast.Subscript)]
-    ctx.require(opens, "C17.R1: FileReadBackwards table not found")
-    tab = text(opens[0].targets[0].value)
+    if opens:
+        tab = text(opens[0].targets[0].value)
+    else:
+        # ... or built in one go by a dict comprehension
+        opens = [n for n in f.own_nodes() if isinstance(n, ast.Assign)
+                 and isinstance(n.targets[0], ast.Name)
+                 and isinstance(n.value, ast.DictComp)
+                 and isinstance(n.value.value, ast.Call)
+                 and text(n.value.value.func) == "FileReadBackwards"]
+        ctx.require(opens, "C17.R1: FileReadBackwards table not found")
+        tab = opens[0].targets[0].id
     closes = None
     for lp in f.own_nodes():
         if isinstance(lp, ast.For) and text(lp.iter).replace(" ", "") == \
@@ -313,23 +322,47 @@ def r4_merges(ctx):
     lp = loops[0]
     body = pat.real_stmts(lp.body)
     ok = False
-    if len(body) == 1 and isinstance(body[0], ast.If) and body[0].orelse:
+    # the head of each trace is what next_line(<its file>) was last bound to:
+    # a (stamp, text) pair kept whole (`h[0]`, `h[1]`) or unpacked (`s, t`)
+    heads = {}
+    for side in ("read", "write"):
+        binds = [n for n in c.own_nodes() if isinstance(n, ast.Assign)
+                 and text(n.value).replace(" ", "") == "next_line(f_%s)" % side]
+        tg = {text(n.targets[0]).replace(" ", "") for n in binds}
+        if len(tg) == 1 and binds:
+            t0 = binds[0].targets[0]
+            if isinstance(t0, ast.Name):
+                heads[side] = (t0.id + "[0]", t0.id + "[1]", tg.pop())
+            elif isinstance(t0, ast.Tuple) and len(t0.elts) == 2 and \
+                    all(isinstance(e, ast.Name) for e in t0.elts):
+                heads[side] = (t0.elts[0].id, t0.elts[1].id, tg.pop())
+    if len(body) == 1 and isinstance(body[0], ast.If) and body[0].orelse and \
+            len(heads) == 2:
         iff = body[0]
         p = pat.cmp_raw(iff.test)
         strict_write = p is not None and p[0] == "<" and \
-            p[1] == "write_line[0]" and p[2] == "read_line[0]"
+            p[1].replace(" ", "") == heads["write"][0] and \
+            p[2].replace(" ", "") == heads["read"][0]
 
         def branch(stmts, side):
+            other = "read" if side == "write" else "write"
             adv = [s for s in stmts if isinstance(s, ast.Assign)
-                   and text(s.targets[0]) == side + "_line"
+                   and text(s.targets[0]).replace(" ", "") == heads[side][2]
                    and text(s.value).replace(" ", "") == "next_line(f_%s)" % side]
             wr = [s for s in _walk(stmts) if isinstance(s, ast.Call)
-                  and text(s.func) == "f_comb.write" and
-                  (side + "_line[1]") in text(s)]
-            others = [s for s in stmts if isinstance(s, ast.Assign)
-                      and text(s.targets[0]).endswith("_line")
-                      and s not in adv]
-            return len(adv) == 1 and len(wr) == 1 and not others
+                  and text(s.func) == "f_comb.write" and s.args and
+                  any(isinstance(x, (ast.Name, ast.Subscript)) and
+                      text(x).replace(" ", "") == heads[side][1]
+                      for x in ast.walk(s.args[0]))]
+            allwr = [s for s in _walk(stmts) if isinstance(s, ast.Call)
+                     and text(s.func) == "f_comb.write"]
+            others = [s for s in _walk(stmts) if isinstance(s, ast.Assign)
+                      and s not in adv and any(
+                          isinstance(x, ast.Name) and isinstance(x.ctx, ast.Store)
+                          and x.id in (heads[other][2].strip("()").split(",") +
+                                       heads[side][2].strip("()").split(","))
+                          for x in ast.walk(s.targets[0]))]
+            return len(adv) == 1 and len(wr) == 1 and len(allwr) == 1 and not others
         ok = strict_write and branch(iff.body, "write") and branch(iff.orelse, "read")
     if ok:
         ctx.ok("C17.R4", c, lp, "stable two-finger merge: ties go to the read "
@@ -344,28 +377,24 @@ def r4_merges(ctx):
     lp = loops[0]
     body = pat.real_stmts(lp.body)
     ok = False
-    if len(body) == 1 and isinstance(body[0], ast.If):
-        a = body[0]
-        pa = pat.cmp_raw(a.test)
-        if pa and pa[0] == "==" and {pa[1], pa[2]} == {"data_in", "data_fil"} and \
-                len(a.orelse) == 1 and isinstance(a.orelse[0], ast.If):
-            b = a.orelse[0]
-            pb = pat.cmp_raw(b.test)
+    br = pat.three_way(ctx, f, body, "data_in", "data_fil")
+    if br is not None:
+        def adv(stmts):
+            s = set()
+            for x in _walk(stmts):
+                if isinstance(x, ast.Assign) and text(x.targets[0]) in (
+                        "line_in", "line_fil") and "readline" in text(x.value):
+                    s.add(text(x.targets[0]))
+            return s
 
-            def adv(stmts):
-                s = set()
-                for x in stmts:
-                    if isinstance(x, ast.Assign) and text(x.targets[0]) in (
-                            "line_in", "line_fil") and "readline" in text(x.value):
-                        s.add(text(x.targets[0]))
-                return s
-            wrote = any(isinstance(x, ast.Call) and text(x.func) == "f_out.write"
-                        and text(x.args[0]) == "line_in" for x in _walk(a.body))
-            ok = wrote and adv(a.body) == {"line_in", "line_fil"} and pb and \
-                pb[0] == "<" and (pb[1], pb[2]) == ("data_in", "data_fil") and \
-                adv(b.body) == {"line_in"} and adv(b.orelse) == {"line_fil"} and \
-                not any(isinstance(x, ast.Call) and text(x.func) == "f_out.write"
-                        for x in _walk(b.body + b.orelse))
+        def wrote(stmts):
+            return [x for x in _walk(stmts) if isinstance(x, ast.Call)
+                    and text(x.func) == "f_out.write"]
+        we = wrote(br["eq"])
+        ok = len(we) == 1 and we[0].args and text(we[0].args[0]) == "line_in" and \
+            adv(br["eq"]) == {"line_in", "line_fil"} and \
+            adv(br["lt"]) == {"line_in"} and adv(br["gt"]) == {"line_fil"} and \
+            not wrote(br["lt"]) and not wrote(br["gt"])
     if ok:
         ctx.ok("C17.R4", f, lp, "filter keeps a row exactly on a match and "
                "advances the smaller side otherwise")
@@ -520,6 +549,22 @@ def _lin_cmp(ctx, f, test, pol=True):
     return tuple(sorted(p.items())), o
 
 
+def _dnf_ast(test, pol=True):
+    """DNF of a test as lists of (atom expr, polarity)."""
+    if isinstance(test, ast.UnaryOp) and isinstance(test.op, ast.Not):
+        return _dnf_ast(test.operand, not pol)
+    if isinstance(test, ast.BoolOp):
+        is_and = isinstance(test.op, ast.And) == pol
+        parts = [_dnf_ast(v, pol) for v in test.values]
+        if not is_and:
+            return [d for p in parts for d in p][:64]
+        out = [[]]
+        for p in parts:
+            out = [a + b for a in out for b in p][:64]
+        return out
+    return [[(test, pol)]]
+
+
 def r6_space(ctx):
     tb = [f for k, f in ctx.prog.funcs.items()
           if k.startswith(T + "cacheTraffic.") and f.name == "to_be_buffered"]
@@ -538,15 +583,21 @@ def r6_space(ctx):
     for n in tb.own_nodes():
         if isinstance(n, ast.Assign) and isinstance(n.value, ast.Constant) and \
                 n.value.value is True:
-            chain = [(t, pol) for t, pol in guards(n, asserts=False)
-                     if _lin_cmp(ctx, tb, t, pol) is not None or
-                     not any(isinstance(x, ast.Call) and text(x.func) == "isinstance"
-                             for x in ast.walk(t))]
-            lin = [(t, pol) for t, pol in chain if _lin_cmp(ctx, tb, t, pol) is not None
-                   and {x.id for x in ast.walk(t) if isinstance(x, ast.Name)}
-                   & {"capacity"}]
-            if lin:
-                cands.append((len(chain), n, lin[0]))
+            # each way of reaching the store (disjunctions split up)
+            ways = [[]]
+            for t, pol in guards(n, asserts=False):
+                alts = _dnf_ast(t, pol)
+                ways = [w + a for w in ways for a in alts][:64]
+            for way in ways:
+                chain = [(t, pol) for t, pol in way
+                         if _lin_cmp(ctx, tb, t, pol) is not None or
+                         not any(isinstance(x, ast.Call) and text(x.func) == "isinstance"
+                                 for x in ast.walk(t))]
+                lin = [(t, pol) for t, pol in chain if _lin_cmp(ctx, tb, t, pol) is not None
+                       and {x.id for x in ast.walk(t) if isinstance(x, ast.Name)}
+                       & {"capacity"}]
+                if lin:
+                    cands.append((len(chain), n, lin[0]))
     if cands:
         cands.sort(key=lambda c: c[0])
         _, n_, (t_, pol_) = cands[0]
